@@ -1249,8 +1249,11 @@ def _pipeline_multi(ctx, R, graphs, rules):
   # tensor spec: (name, kind[, shape]); kind 0 = float runtime, 1 = float constant, 'i' = int32 constant (shape / axis / indices), 'r' = int32 runtime
   def tspec(t):
     n, k = t[0], t[1]
-    shape = list(t[2]) if len(t) > 2 else ([2, 2] if k == 1 else [1, 2])
+    shape = list(t[2]) if len(t) > 2 and t[2] is not None else ([2, 2] if k == 1 else [1, 2])
     return n, k, shape
+  # an optional 4th component names the constant whose BUFFER this constant shares (tied weights, also across subgraphs)
+  alias = {t[0]: t[3] for g in graphs for t in g[0] if len(t) > 3}
+  owner = lambda n: alias.get(n, n)
   # weights and runtime contents depend on the tensor NAME only, so that a subgraph sees the same numbers alone and in company
   seed = lambda n: sum(ord(c) for c in n) % 11
 
@@ -1259,17 +1262,23 @@ def _pipeline_multi(ctx, R, graphs, rules):
     for s_ in shape:
       cnt *= s_
     return NdArr(shape, [((j * 5 + seed(n)) % 13) - 6 for j in range(cnt)])
-  wts = {tspec(t)[0]: weight(tspec(t)[0], tspec(t)[2]) for g in graphs for t in g[0] if tspec(t)[1] == 1}
+  wts = {tspec(t)[0]: weight(owner(tspec(t)[0]), tspec(t)[2]) for g in graphs for t in g[0] if tspec(t)[1] == 1}
   idx = {tspec(t)[0]: NdArr(tspec(t)[2], [1] * max(1, len(tspec(t)[2]) and __import__('functools').reduce(lambda a, b: a * b, tspec(t)[2], 1))) for g in graphs for t in g[0] if tspec(t)[1] == 'i'}
 
   def model():
     sgs, bufs = [], [Obj('x:BufferT', {'data': None, 'offset': 0, 'size': 0})]
+    buf_of = {}
     for gi, (tensors, ops, gin, gout) in enumerate(graphs):
       ts = []
       for t in tensors:
         n, c, shape = tspec(t)
-        bufs.append(Obj('x:BufferT', {'data': (f'float-bytes-of-{n}' if c == 1 else f'int-bytes-of-{n}' if c == 'i' else None), 'offset': 0, 'size': 0}))
-        ts.append(Obj('x:TensorT', {'name': n.encode(), 'buffer': len(bufs) - 1, 'type': I32 if c in ('i', 'r') else F32, 'shape': shape, 'quantization': None}))
+        if n in alias and alias[n] in buf_of:
+          bi = buf_of[alias[n]]
+        else:
+          bufs.append(Obj('x:BufferT', {'data': (f'float-bytes-of-{n}' if c == 1 else f'int-bytes-of-{n}' if c == 'i' else None), 'offset': 0, 'size': 0}))
+          bi = len(bufs) - 1
+        buf_of[n] = bi
+        ts.append(Obj('x:TensorT', {'name': n.encode(), 'buffer': bi, 'type': I32 if c in ('i', 'r') else F32, 'shape': shape, 'quantization': None}))
       os_ = [Obj('x:OperatorT', {'label': op[0], 'opcodeIndex': KINDS.index(op[1]), 'inputs': list(op[2]), 'outputs': list(op[3]),
                                  'builtinOptions': (Obj('x:Options', dict(op[4])) if len(op) > 4 else None)}) for op in ops]
       sgs.append(Obj('x:SubGraphT', {'tensors': ts, 'operators': os_, 'inputs': list(gin), 'outputs': list(gout), 'name': f'sg{gi}'.encode()}))
@@ -1664,6 +1673,113 @@ def rule_blockwise_replacement(ctx, R: str, independence: bool = False):
         pr = well_formed(m, pos, named[c], c)
         ctx.check(R, not pr, tg.node, tg, f'{label}: subgraph "{c}" at position {pos}', '; '.join(pr[:3]))
   ctx.sample(R, {'cases': list(named) + ([] if independence else list(mixed)), 'refused (allowed by C01)': refused, 'models': 3})
+
+
+# ------------------------------------------- tied constants through the pipeline
+def rule_shared_constant_pipeline(ctx, R: str):
+  """C15 on label models: constants that share one buffer (two tensors of one
+  subgraph, one tensor read by several operators, the same weights in two
+  subgraphs) go through the whole pipeline under recipes that give the sharers
+  equal, different or no quantization. Either a stage refuses (allowed), or in
+  the result: the graph is executable (operands produced before they are read,
+  one producer per tensor); all tensors on one buffer have one dtype and one set
+  of parameters; a buffer holds rewritten bytes iff its tensors are integer
+  typed; an operator that computes in float (weight-only, not selected) reads a
+  FLOAT32 weight, a dynamic- / static-range operator reads an INT8 constant."""
+  from sa import consteval  # pylint: disable=g-import-not-at-top
+  from sa.consteval import Ext  # pylint: disable=g-import-not-at-top
+  from sa.ndarr import NdArr  # pylint: disable=g-import-not-at-top
+  rs = ctx.rule(R, 'tied constants through the whole pipeline: refused, or executable graph, sharers agree on dtype / parameters / bytes, float consumers read float, integer consumers read INT8', floor=1)
+  tg = ctx.repo.func('transformation_performer:TransformationPerformer.transform_graph')
+  ctx.instance(R)
+  TT = consteval.schema_enum('TensorType')
+  F32, I8 = TT['FLOAT32'], TT['INT8']
+  tv = lambda t: t.value if isinstance(t, Ext) else t
+  tied = ([('x', 0), ('wa', 1, (2, 2)), ('h1', 0), ('wb', 1, (2, 2), 'wa'), ('h2', 0), ('out', 0)],
+          [('fc1', 'fc', [0, 1], [2]), ('fc2', 'fc', [2, 3], [4]), ('fc3', 'fc', [4, 1], [5])], [0], [5])
+  gA = ([('ax', 0), ('aw', 1, (2, 2)), ('aout', 0)], [('afc', 'fc', [0, 1], [2])], [0], [2])
+  gB = ([('bx', 0), ('bh', 0), ('bw', 1, (2, 2), 'aw'), ('bout', 0)], [('babs', 'abs', [0], [1]), ('bfc', 'fc', [1, 2], [3])], [0], [3])
+  cases = [
+      ('one subgraph, all weight-only', [tied], [('.*', 'fc', 'wonly')], {'fc1': 'wonly', 'fc2': 'wonly', 'fc3': 'wonly'}),
+      ('one subgraph, all dynamic-range', [tied], [('.*', 'fc', 'drq')], {'fc1': 'drq', 'fc2': 'drq', 'fc3': 'drq'}),
+      ('one subgraph, all static-range', [tied], [('.*', 'fc', 'srq')], {'fc1': 'srq', 'fc2': 'srq', 'fc3': 'srq'}),
+      ('one subgraph, first dynamic-range, the others weight-only', [tied], [('h1;', 'fc', 'drq'), ('h2;|out;', 'fc', 'wonly')], {'fc1': 'drq', 'fc2': 'wonly', 'fc3': 'wonly'}),
+      ('one subgraph, first weight-only, the others dynamic-range', [tied], [('h1;', 'fc', 'wonly'), ('h2;|out;', 'fc', 'drq')], {'fc1': 'wonly', 'fc2': 'drq', 'fc3': 'drq'}),
+      ('one subgraph, middle weight-only, the others dynamic-range', [tied], [('h2;', 'fc', 'wonly'), ('h1;|out;', 'fc', 'drq')], {'fc1': 'drq', 'fc2': 'wonly', 'fc3': 'drq'}),
+      ('one subgraph, first not selected, the others weight-only', [tied], [('h2;|out;', 'fc', 'wonly')], {'fc1': None, 'fc2': 'wonly', 'fc3': 'wonly'}),
+      ('one subgraph, last not selected, the others dynamic-range', [tied], [('h1;|h2;', 'fc', 'drq')], {'fc1': 'drq', 'fc2': 'drq', 'fc3': None}),
+      ('two subgraphs, all weight-only', [gA, gB], [('.*', 'fc', 'wonly')], {'afc': 'wonly', 'bfc': 'wonly'}),
+      ('two subgraphs, dynamic-range and weight-only', [gA, gB], [('aout;', 'fc', 'drq'), ('bout;', 'fc', 'wonly')], {'afc': 'drq', 'bfc': 'wonly'}),
+      ('two subgraphs (other order), weight-only and dynamic-range', [gB, gA], [('aout;', 'fc', 'drq'), ('bout;', 'fc', 'wonly')], {'afc': 'drq', 'bfc': 'wonly'}),
+      ('two subgraphs, only the second selected', [gA, gB], [('bout;', 'fc', 'drq')], {'afc': None, 'bfc': 'drq'}),
+  ]
+  rs.exhaustive = True
+  refused = []
+  for cname, graphs, rules, modes in cases:
+    m, why = _pipeline_multi(ctx, R, graphs, rules)
+    label = f'case "{cname}"'
+    if m is None:
+      ctx.check(R, why.startswith('refused'), tg.node, tg, label, why)   # a refusal is what the property allows
+      if why.startswith('refused'):
+        refused.append(cname)
+      continue
+    problems = []
+    bufs = m.fields['buffers']
+    by_buffer = {}
+    for gi, sg in enumerate(m.fields['subgraphs']):
+      T, O = sg.fields['tensors'], sg.fields['operators']
+      tensors, ops, gin, gout = graphs[gi]
+      produced = set(sg.fields['inputs'])
+      for i, t in enumerate(T):
+        b = t.fields['buffer']
+        if isinstance(b, int) and b != 0 and 0 <= b < len(bufs) and bufs[b].fields['data'] is not None:
+          produced.add(i)
+          by_buffer.setdefault(b, []).append((gi, i, t))
+      seen_out = set()
+      for k, op in enumerate(O):
+        f = op.fields
+        if not isinstance(f['inputs'], list) or not isinstance(f['outputs'], list):
+          problems.append(f'subgraph {gi}: operator {k} has unfolded operands')
+          continue
+        for x in f['inputs']:
+          if x != -1 and not (isinstance(x, int) and 0 <= x < len(T)):
+            problems.append(f'subgraph {gi}: operator {k} reads tensor {x!r}, which does not exist')
+          elif x != -1 and x not in produced:
+            problems.append(f'subgraph {gi}: operator {k} ({f["label"] or "new"}) reads {T[x].fields["name"]} before it is produced')
+        for x in f['outputs']:
+          if x in seen_out:
+            problems.append(f'subgraph {gi}: tensor {T[x].fields["name"]} has two producers')
+          seen_out.add(x)
+          produced.add(x)
+      for lab, kind, ins, outs in [o[:4] for o in ops]:
+        if kind != 'fc':
+          continue
+        cur = next((q for q in O if q.fields['label'] == lab), None)
+        if cur is None:
+          problems.append(f'subgraph {gi}: operator {lab} disappeared')
+          continue
+        wt = T[cur.fields['inputs'][1]]
+        ty = tv(wt.fields['type'])
+        md = modes.get(lab)
+        if md in ('wonly', None) and ty != F32:
+          problems.append(f'{lab} computes in float ({md or "not selected"}) but reads its weight {wt.fields["name"]} as type {ty}: a float consumer reads integer bytes')
+        if md in ('drq', 'srq') and ty != I8:
+          problems.append(f'{lab} ({md}) reads its weight {wt.fields["name"]} as type {ty}, expected an INT8 constant')
+    for b, users in by_buffer.items():
+      data = bufs[b].fields['data']
+      rewritten = not (isinstance(data, str) and data.startswith('float-bytes'))
+      sig = set()
+      for gi, i, t in users:
+        q = t.fields['quantization']
+        ty = tv(t.fields['type'])
+        num = lambda x: tuple(round(float(v), 12) for v in (x.data if isinstance(x, NdArr) else x)) if isinstance(x, (NdArr, list)) else x
+        sig.add((ty, None if q is None else (num(q.fields['scale']), num(q.fields['zeroPoint']))))
+        if (ty != F32) != rewritten:
+          problems.append(f'tensor {t.fields["name"]} has type {ty} but its buffer {b} holds {"quantized" if rewritten else "float"} bytes')
+      if len(sig) > 1:
+        problems.append(f'the tensors on buffer {b} ({[u[2].fields["name"] for u in users]}) disagree on dtype / parameters: {sorted(map(str, sig))}')
+    ctx.check(R, not problems, tg.node, tg, f'{label}: operators {[[(o.fields["label"] or "new") for o in sg.fields["operators"]] for sg in m.fields["subgraphs"]]}', '; '.join(problems[:3]))
+  ctx.sample(R, {'cases': [c[0] for c in cases], 'refused (allowed)': refused})
 
 
 # ------------------------------------------------------- error discipline
